@@ -45,6 +45,7 @@ type runner func(t TB, p *Program)
 var runners = map[string]runner{
 	"C14": func(t TB, p *Program) { RunC14(t, p) },
 	"C13": func(t TB, p *Program) { RunC13(t, p) },
+	"C12": func(t TB, p *Program) { RunC12(t, p) },
 }
 
 func replayProgram(t TB, p *Program) {
